@@ -74,6 +74,9 @@ class C05(Property):
         'outside the open finding check_balance:float-roundoff-decimal-compositions; no theorem about float arithmetic',
         'the text level of ReactionSystem.from_string / Reaction.from_string is C12 s model; here the multiset semantics of the written terms '
         '(mergeTerms; C03.written_terms_spec) combined with accept_iff_balanced, tied by the from_string correspondence and oracle',
+        'Substance.composition_keys(skip_keys=...) (modelled as compositionKeysSkipping), the argument validation of '
+        'linear_dependencies(preferred) (modelled as checkPreferred) and the refusal of malformed reaction lines (C12 s text model): '
+        'correspondence and oracle only, no theorem',
         'the constructor options checks= / dont_check= (modelled as constructorChecks; theorem only for the default selection) and the '
         'independence of one construction from earlier constructions in the same process (class-level default_checks never modified): '
         'multi-construction correspondence and oracle only',
@@ -83,7 +86,7 @@ class C05(Property):
     anchors = (('chempy/reactionsystem.py', 'ReactionSystem.check_balance'), ('chempy/reactionsystem.py', 'ReactionSystem.composition_balance_vectors'),
                ('chempy/chemistry.py', 'Reaction.composition_violation'), ('chempy/chemistry.py', 'Reaction._violation'),
                ('chempy/chemistry.py', 'Reaction.net_stoich'), ('chempy/chemistry.py', 'Substance.composition_keys'),
-               ('chempy/kinetics/ode.py', 'get_odesys'),
+               ('chempy/kinetics/ode.py', 'get_odesys.linear_dependencies'),
                ('chempy/util/parsing.py', '_parse_multiplicity'), ('chempy/util/parsing.py', 'to_reaction'))
 
     def __init__(self):
@@ -214,6 +217,9 @@ class C05(Property):
             if i % 8 == 1:
                 cases.append(self._from_string(rng, tier))
                 continue
+            if i % 24 == 7:
+                cases.append(self._malformed_line(rng, tier))
+                continue
             subs, rxns, planted, charge_kw = self._system(rng, tier, formulas=rng.random() < 0.25)
             scale = rng.choice([[1, 10], [3, 10], [7, 10], [1, 100]]) if rng.random() < 0.12 else rng.choice([1, 1, 1, [1, 2], [3, 2]])
             dec = isinstance(scale, list) and scale[1] in (10, 100)       # decimal amounts: the real code computes with floats
@@ -236,9 +242,25 @@ class C05(Property):
                 pref = None
                 if rng.random() < 0.6:
                     pref = rng.sample([p[0] for p in sj2], rng.randint(1, max(1, len(sj2) - 1)))
+                m = rng.random()
+                if m < 0.06:
+                    pref = []                                            # refused: no preferred keys
+                elif m < 0.12:
+                    pref = [p[0] for p in sj2]                           # refused: cannot remove all concentrations
+                elif m < 0.18:
+                    pref = (pref or [])[:1] + ['Q_unknown']              # refused: unknown key (when not already too long)
                 c = dict(base, subs=sj2, op='elim', preferred=pref, seed=rng.randrange(10 ** 9))
             elif r < 0.3:
                 c = dict(base, op='check_balance', strict=rng.random() < 0.3, throw=rng.random() < 0.8, via='method')
+                m = rng.random()
+                if m < 0.08 and sj:
+                    # strict check on a system lacking a composition, asked not to throw: must return False
+                    c['subs'] = [list(p) for p in sj]
+                    c['subs'][rng.randrange(len(sj))][1] = None
+                    c['strict'], c['throw'] = True, False
+                elif m < 0.16:
+                    c = {'op': 'composition_keys', 'subs': sj, 'charge_kw': charge_kw, 'alias': base['alias'], 'planted': planted,
+                         'skip': rng.choice([None, [0], [0, rng.choice(ELEMENTS)], rng.sample(ELEMENTS, 2), []])}
             elif r < 0.45:
                 c = dict(base, op='check_balance', strict=False, throw=True, via='constructor')
             elif r < 0.55:
@@ -289,10 +311,39 @@ class C05(Property):
                 x['prod'] = _merge(x['prod'] + [[k, n]])
             terms, line = kg.written_reaction(rng, x)
             written.append({'terms': terms, 'line': line})
-        if planted != 'balanced' or rng.random() < 0.5:
-            pass
+        if rng.random() < 0.15 and sj:
+            # a line with an EMPTY side (a species vanishing): unbalanced unless the species has an empty composition
+            k = rng.choice([p[0] for p in sj])
+            terms = {'reac': [[1, k]], 'prod': [], 'inact_reac': [], 'inact_prod': [], 'param': 99}
+            written.append({'terms': terms, 'line': rng.choice(['%s -> ; 99', '%s ->; 99', '%s -> ']) % k})
+        for w in written:
+            m = rng.random()
+            stoich = w['line'].split(';')[0]
+            if m < 0.15:
+                w['line'] = stoich.rstrip() if stoich.strip().endswith('->') is False else stoich     # no parameter part at all
+            elif m < 0.3:
+                w['line'] = stoich + "; 'k_%d'" % rng.randint(0, 99)                                   # quoted (named) parameter
+            elif m < 0.4:
+                w['line'] = w['line'] + "; name='n%d'" % rng.randint(0, 10 ** 6)
         return {'op': 'from_string_balance', 'subs': sj, 'written': written, 'planted': planted, 'charge_kw': charge_kw,
                 'alias': self._alias(rng, sj)}
+
+    def _malformed_line(self, rng, tier):
+        """reaction lines the text reader must refuse (ValueError): no arrow, a term with too many parts, an unknown species"""
+        subst = rng.sample(kg.NAMES, rng.randint(2, 4))
+        spec = kg.rand_reaction(rng, subst, 'int', 3)
+        spec['param'] = rng.randint(1, 9)
+        if not spec['reac'] and not spec['prod']:
+            spec['reac'] = [[subst[0], 1]]
+        terms, line = kg.written_reaction(rng, spec)
+        m = rng.choice(['no_arrow', 'too_many', 'unknown', 'fine'])
+        if m == 'no_arrow':
+            line = line.replace('->', rng.choice(['=', '>', '- >', '']))
+        elif m == 'too_many':
+            line = line.replace(' -> ', ' + 2 %s %s -> ' % (subst[0], subst[-1]), 1) if ' -> ' in line else '2 %s %s %s' % (subst[0], subst[-1], line)
+        elif m == 'unknown':
+            line = line.replace(' -> ', ' + Q_unknown -> ', 1) if ' -> ' in line else 'Q_unknown + ' + line
+        return {'op': 'parse_refusal', 'keys': list(subst), 'line': line, 'kind': m}
 
     def _from_string_run(self, c, checks=None):
         from chempy import ReactionSystem
@@ -654,6 +705,14 @@ class C05(Property):
                     else:
                         rsys = self._apply_real(rsys, st)
                 return ' | '.join(outs)
+            if op == 'parse_refusal':
+                from chempy import ReactionSystem
+                try:
+                    ReactionSystem.from_string(c['line'], list(c['keys']), rxn_parse_kwargs={'checks': ()}, checks=(),
+                                               substance_factory=lambda k: __import__('chempy').Substance(k))
+                    return 'ok'
+                except ValueError:
+                    return 'ValueError'
             if op == 'check_balance_terms':
                 try:
                     self._from_string_run(c)
@@ -698,6 +757,12 @@ class C05(Property):
                 else:
                     net, ck = rxn.composition_violation(subs, c['ckeys']), c['ckeys']
                 return show_rat_list(map(kg.to_frac, net)) + ';' + show_int_list(ck)
+            if op == 'composition_keys':
+                from chempy import Substance
+                subs = self._substances(c['subs'], c=c)
+                if c['skip'] is None:
+                    return show_int_list(Substance.composition_keys(subs.values()))
+                return show_int_list(Substance.composition_keys(subs.values(), skip_keys=tuple(c['skip'])))
             if op == 'balance_vectors':
                 rsys, _ = self._rsys(c)
                 B, ck = rsys.composition_balance_vectors()
@@ -795,6 +860,25 @@ class C05(Property):
             return self._oracle_construct(c)
         if op == 'from_string_balance':
             return self._oracle_from_string(c)
+        if op == 'parse_refusal':
+            from chempy import ReactionSystem
+            try:
+                ReactionSystem.from_string(c['line'], list(c['keys']), rxn_parse_kwargs={'checks': ()}, checks=(),
+                                           substance_factory=lambda k: __import__('chempy').Substance(k))
+                ok = True
+            except ValueError:
+                ok = False
+            except Exception as e:
+                return 'ReactionSystem.from_string(%r) raised %s instead of ValueError' % (c['line'], exc_name(e))
+            if ok != (c['kind'] == 'fine'):
+                return 'reaction line %r (%s) was %s' % (c['line'], c['kind'], 'accepted' if ok else 'refused')
+            return None
+        if op == 'composition_keys':
+            from chempy import Substance
+            subs = self._substances(c['subs'], c=c)
+            want = sorted({e for _, cj in c['subs'] if cj is not None for e, _ in cj} - set(c['skip'] or []))
+            got = Substance.composition_keys(subs.values(), **({} if c['skip'] is None else {'skip_keys': tuple(c['skip'])}))
+            return None if list(got) == want else 'composition_keys(skip_keys=%s) = %s, expected %s' % (c['skip'], list(got), want)
         if op == 'multi_construct':
             for n, st in enumerate(c['steps']):
                 f = self._oracle_construct(st)
@@ -1088,7 +1172,14 @@ class C05(Property):
             s = sum(Fraction(b) * fi for b, fi in zip(row, f))
             if s != 0:
                 return 'composition row of key %s is no invariant: B.f(c) = %s at c = %s' % (key, s, [str(v) for v in y])
+        pref = c['preferred']
+        names_ = [k for k, _ in c['subs']]
+        bad_args = pref is not None and (len(pref) == 0 or len(pref) >= len(names_) or any(k not in names_ for k in pref))
+        if bad_args and 'solver_error' not in out:
+            return 'linear_dependencies(%s) was not refused (empty / too long / unknown key)' % pref
         if 'solver_error' in out:
+            if pref is None:
+                return 'linear_dependencies(None) raised ValueError'
             return None
         exprs, y0s = out['exprs'], out['y0s']
         elim = set(exprs)
@@ -1136,7 +1227,7 @@ class C05(Property):
         return '%s:%s%s' % (op, pl, ':no-composition' if nocomp else '')
 
     def nontrivial(self, c):
-        return bool(c.get('rxns') or c.get('rxn') or c.get('steps') or c.get('written'))
+        return bool(c.get('rxns') or c.get('rxn') or c.get('steps') or c.get('written') or c.get('line') or c.get('op') == 'composition_keys')
 
 
 PROPERTY = C05()
